@@ -92,7 +92,7 @@ def ptr_history(rnd, first_id):
                 off = start + rf.offset
                 data[off:off + width] = addr.to_bytes(width, "little" if mode["endian"] == "<" else "big")
         data = bytes(data)
-        stream = io.BytesIO(data)
+        stream = codec.FaultyStream(data)      # behaves like BytesIO until a fault is armed (DerefFault below)
         stream.seek(start)
         ev = dict(base, id=rid, ev="Parse", input=list(data), start=start)
         try:
@@ -109,6 +109,18 @@ def ptr_history(rnd, first_id):
             continue
         p = getattr(v, rf._name)
         target = f["type"]["target"]
+        if stream is not None and rnd.random() < 0.3:
+            # the stream fails (raises) on the first read of the dereference: the position must be restored all the same, and the
+            # dereference below must still give the right value
+            stream.fault_call, stream.kind = stream.n, "raise"
+            try:
+                p.dereference()
+                st = "ok"
+            except Exception as e:  # noqa: BLE001
+                st = "null" if status_of(e) == "null" else codec.classify_fault(e)
+            stream.fault_call = None
+            events.append(dict(base, id=rid, ev="DerefFault", field=i + 1, input=list(data), obs={"status": st, "pos": stream.tell()}))
+            rid += 1
         events.append(dict(base, id=rid, ev="Deref", field=i + 1, input=list(data), obs=observe_deref(p, target, stream)))
         rid += 1
         if rnd.random() < 0.6:
